@@ -224,10 +224,10 @@ theorem lockSetNX_consistent {st : RStore} (h : Consistent st) (k tok : Nat) :
   · exact h
   · refine ⟨h.upd, h.ref, h.sts, h.keyed, h.ins, h.prb, ?_⟩
     intro k' c
-    show (st.locks.insert k ⟨tok, true⟩)[k']? = some c → c.ttl = true
+    show (st.locks.insert k ⟨tok, leaseHasTTL⟩)[k']? = some c → c.ttl = true
     rw [ExtTreeMap.getElem?_insert]
     split
-    · rintro ⟨rfl⟩; rfl
+    · rintro ⟨rfl⟩; exact leaseHasTTL_eq
     · exact h.ttl k' c
 
 theorem ttl_erase {st : RStore} (h : Consistent st) (k : Nat) :
@@ -253,8 +253,10 @@ theorem lockExpire_consistent {st : RStore} (h : Consistent st) (k : Nat) (dirti
   split
   · exact h
   · split
-    · exact ⟨h.upd, h.ref, h.sts, h.keyed, h.ins, h.prb, ttl_erase h k⟩
-    · exact ⟨h.upd, h.ref, h.sts, h.keyed, h.ins, h.prb, ttl_erase h k⟩
+    · split
+      · exact ⟨h.upd, h.ref, h.sts, h.keyed, h.ins, h.prb, ttl_erase h k⟩
+      · exact ⟨h.upd, h.ref, h.sts, h.keyed, h.ins, h.prb, ttl_erase h k⟩
+    · exact h
 
 /-- instances `Add` -/
 theorem insAddBatch_consistent {st : RStore} (h : Consistent st) (id : Nat) (a : Addr) (now : Int) :
